@@ -58,4 +58,9 @@ CHECKS['C08'] = dict(
     note='FixFrame does not set the signed flag on a frame that arrived unsigned: signature validation at a keyed next hop is checked for frames carrying the flag. Trusted: Coq kernel, vm_compute, extraction, driver, harness, table translator.',
     technique='Coq proof (parser inversion, codec idempotence, composition with C01/C04 theorems) + extracted-model differential over multi-hop forwarding')
 
+CHECKS['C20'] = dict(
+    text='Kernel-checked on the tlog writer/reader model: the file is the concatenation of 8-byte big-endian microsecond timestamps each followed by one frame; an unencodable entry leaves no bytes; a failing underlying write is reported; timestamps round-trip over the whole int64 range; any entry sequence reads back identically; and for EVERY truncation point of a valid log the reader returns exactly the complete entries before the cut and then only errors however often it is called (frame layouts are prefix-free; a failed parse leaves at most 12 bytes; fewer than 16 bytes never hold an entry). Tied to pkg/tlog by a differential over entry sequences x every cut offset x a write error at every underlying Write.',
+    note='A failing underlying Write is modelled as writing nothing. Trusted: Coq kernel, extraction, driver, harness.',
+    technique='Coq proof (prefix-freeness of frame layouts, parser inversion, induction over entry lists) + extracted-model differential over every cut offset')
+
 NOT_APPLICABLE = [{'property_id': p, 'reason': PENDING} for p in ALL if p not in CHECKS]
